@@ -2,12 +2,14 @@ import SuxModel.EF.LemmasProps
 /-!
 # C03 — Elias–Fano returns exactly the monotone sequence it was built from
 
-For every non-decreasing `xs` with all elements `≤ u < 2^64` (`Input xs u`; `Input.fits` says that
-the length `n + (u >> l) + 1` of the upper-bits vector is a `usize`, otherwise
-`EliasFanoBuilder::new` panics — `ef_new_overflow_panics`), `n = xs.length`, and every state `s`
-produced by the sequential builder (`build`: `new`, `push` of every value, `build`):
+For every non-decreasing `xs` with all elements `≤ u < 2^64` and `n + 2·max n 1 < 2^64` elements
+(`Input xs u`; the last condition only bounds the NUMBER of elements: with
+`l = ⌊log2(u / max n 1)⌋` the upper-bits vector has at most `n + 2·max n 1` bits whatever `u` is —
+`ef_new_total`; beyond it `EliasFanoBuilder::new` panics on the checked addition —
+`ef_new_overflow_panics`), `n = xs.length`, and every state `s` produced by the sequential builder
+(`build`: `new`, `push` of every value, `build`):
 
-* `ef_repr`            the representation: `l = ⌊log2(u/n)⌋ ≤ 63`, `high` has `n + (u >> l) + 1`
+* `ef_repr`            the representation: `l = ⌊log2(u / max n 1)⌋ ≤ 63`, `high` has `n + (u >> l) + 1`
                         bits with a one exactly at `(xs[i] >> l) + i` — the `i`-th one —, and
                         `low[i] = xs[i] % 2^l`;
 * `ef_get`, `ef_len`   `get i = xs[i]` (`panic` beyond `n`), `len = n`;
@@ -103,10 +105,11 @@ theorem ef_iter_from_out_of_range (h : Input xs u) (hs : build xs.length u xs = 
 /-- in every builder state reached by accepted pushes of `ys`, `push v` is accepted exactly when the
 builder is not full, `v ≤ u` and `v` is not smaller than the last accepted value -/
 theorem ef_push_accepts_iff {n : Nat} (hu : u < 2 ^ 64)
-    (hfit : n + (u >>> lowWidth n u) + 1 < 2 ^ 64) (ys : List Nat) (b : Builder)
+    (hn : n + 2 * max n 1 < 2 ^ 64) (ys : List Nat) (b : Builder)
     (hb : (Builder.new n u >>= fun b0 => pushAll b0 ys) = .ok b) (v : Nat) :
     (∃ b', b.push v = .ok b' ∧ (Builder.new n u >>= fun b0 => pushAll b0 (ys ++ [v])) = .ok b') ↔
       (ys.length < n ∧ v ≤ u ∧ ys.getLast?.getD 0 ≤ v) := by
+  have hfit := fits_of_len n u hn
   have B := binv_of_new hu hfit hb
   rw [getLast?_getD]
   constructor
@@ -138,21 +141,34 @@ theorem ef_push_accepts_iff {n : Nat} (hu : u < 2 ^ 64)
 
 /-- … and every other push panics (the model returns no new state: the builder is unchanged) -/
 theorem ef_push_rejects {n : Nat} (hu : u < 2 ^ 64)
-    (hfit : n + (u >>> lowWidth n u) + 1 < 2 ^ 64) (ys : List Nat) (b : Builder)
+    (hn : n + 2 * max n 1 < 2 ^ 64) (ys : List Nat) (b : Builder)
     (hb : (Builder.new n u >>= fun b0 => pushAll b0 ys) = .ok b) (v : Nat)
     (hbad : ¬ (ys.length < n ∧ v ≤ u ∧ ys.getLast?.getD 0 ≤ v)) : b.push v = .panic := by
   rw [getLast?_getD] at hbad
-  exact push_panic (binv_of_new hu hfit hb) v hbad
+  exact push_panic (binv_of_new hu (fits_of_len n u hn) hb) v hbad
 
 /-- `build` refuses a builder that received fewer than `n` values -/
 theorem ef_build_too_few (h : Input xs u) (n : Nat) (hn : xs.length < n)
-    (hfit : n + (u >>> lowWidth n u) + 1 < 2 ^ 64) : build n u xs = .panic :=
-  build_too_few n u xs h.valid hn hfit
+    (hlen : n + 2 * max n 1 < 2 ^ 64) : build n u xs = .panic :=
+  build_too_few n u xs h.valid hn (fits_of_len n u hlen)
 
-/-- `new` panics (checked arithmetic) when the length of the upper-bits vector overflows -/
+/-- `new` never overflows for fewer than about `2^64 / 3` declared values, whatever `u` is
+(in particular `new(0, usize::MAX)`: the upper-bits vector of an empty sequence has ≤ 2 bits) -/
+theorem ef_new_total (n u : Nat) (hn : n + 2 * max n 1 < 2 ^ 64) :
+    ∃ b, Builder.new n u = .ok b ∧ b.l = lowWidth n u ∧ b.high.len = n + (u >>> lowWidth n u) + 1 ∧
+      b.high.len ≤ n + 2 * max n 1 :=
+  ⟨_, bnew_ok n u (fits_of_len n u hn), rfl, rfl, by
+    have := shr_lowWidth_lt n u
+    show n + (u >>> lowWidth n u) + 1 ≤ _
+    omega⟩
+
+/-- the only remaining overflow: `n + (u >> l) + 1 ≥ 2^64`, which needs `n ≥ (2^64 - 2) / 3`
+declared values; then `new` panics (checked arithmetic) -/
 theorem ef_new_overflow_panics (n u : Nat) (h : ¬ n + (u >>> lowWidth n u) + 1 < 2 ^ 64) :
-    Builder.new n u = .panic :=
-  bnew_panic n u h
+    Builder.new n u = .panic ∧ 2 ^ 64 ≤ n + 2 * max n 1 :=
+  ⟨bnew_panic n u h, by
+    have := shr_lowWidth_lt n u
+    omega⟩
 
 /-- `extend` with the whole sequence = pushing every value -/
 theorem ef_extend (h : Input xs u) (hs : build xs.length u xs = .ok s) :
@@ -171,11 +187,11 @@ theorem ef_extend (h : Input xs u) (hs : build xs.length u xs = .ok s) :
 /-- `EliasFano::from(slice)`: a representation of the slice with `u = max`, hence the same
 `get` / `iter` answers -/
 theorem ef_from_slice (hm : xs.Pairwise (· ≤ ·)) (hlt : ∀ x, x ∈ xs → x < 2 ^ 64)
-    (hfit : xs.length + (lmax xs >>> lowWidth xs.length (lmax xs)) + 1 < 2 ^ 64) :
+    (hn : xs.length + 2 * max xs.length 1 < 2 ^ 64) :
     ∃ s, fromSlice xs = .ok s ∧ s.n = xs.length ∧ s.u = lmax xs ∧
       (∀ i (hi : i < xs.length), get s i = .ok xs[i]) ∧
       (∀ k, k ≤ xs.length → iterFrom s k = .ok (xs.drop k, lensFrom xs.length k)) := by
-  obtain ⟨s, e, R, _⟩ := fromSlice_ok xs (mono_of_pairwise hm) hlt hfit
+  obtain ⟨s, e, R, _⟩ := fromSlice_ok xs (mono_of_pairwise hm) hlt (fits_of_len _ _ hn)
   have V : Valid xs (lmax xs) := ⟨mono_of_pairwise hm,
     fun i hi => by rw [getD_eq_getElem xs hi]; exact mem_le_foldl_max xs 0 _ (List.getElem_mem hi),
     foldl_max_lt xs 0 _ (Nat.two_pow_pos 64) hlt⟩
@@ -208,24 +224,22 @@ theorem ef_no_oob (h : Input xs u) (hs : build xs.length u xs = .ok s) (i k : Na
     · rw [iterFrom_panic R hk]; intro e; cases e
     · rw [iterFrom_ok R h.valid hk]; intro e; cases e
 
-/-! ## non-vacuity: the hypotheses hold on a concrete sequence with duplicates, first = 0, last = u -/
+/-! ## non-vacuity: the hypotheses hold on a concrete sequence with duplicates, first = 0, last = u,
+on the empty sequence with the largest universe, and on a singleton at `usize::MAX` -/
 
-example : Input [0, 2, 2, 8, 10] 10 :=
-  ⟨by decide, by decide, by decide, fits_of_small _ _ (by decide)⟩
+example : Input [0, 2, 2, 8, 10] 10 := ⟨by decide, by decide, by decide, by decide⟩
 
-example : Input [] 5 := ⟨by decide, by simp, by decide, fits_of_small _ _ (by decide)⟩
+example : Input [] (2 ^ 64 - 1) := ⟨by decide, by simp, by decide, by decide⟩
 
-example : Input [2 ^ 64 - 1] (2 ^ 64 - 1) := by
-  refine ⟨by simp, by simp, by decide, ?_⟩
-  have h : lowWidth 1 (2 ^ 64 - 1) = 63 := by
-    unfold lowWidth
-    rw [if_pos (by decide), Nat.div_one]
-    exact (Nat.log2_eq_iff (by decide)).2 ⟨by decide, by decide⟩
-  show 1 + ((2 ^ 64 - 1) >>> lowWidth 1 (2 ^ 64 - 1)) + 1 < 2 ^ 64
-  rw [h]; decide
+example : Input [2 ^ 64 - 1] (2 ^ 64 - 1) := ⟨by simp, by simp, by decide, by decide⟩
 
 example : ∃ s, build 5 10 [0, 2, 2, 8, 10] = .ok s :=
-  ef_build_total (xs := [0, 2, 2, 8, 10]) ⟨by decide, by decide, by decide, fits_of_small _ _ (by decide)⟩
+  ef_build_total (xs := [0, 2, 2, 8, 10]) ⟨by decide, by decide, by decide, by decide⟩
+
+/-- `EliasFanoBuilder::new(0, usize::MAX)` succeeds -/
+example : ∃ b, Builder.new 0 (2 ^ 64 - 1) = .ok b := by
+  obtain ⟨b, e, _⟩ := ef_new_total 0 (2 ^ 64 - 1) (by decide)
+  exact ⟨b, e⟩
 
 example : ∀ i, i ∈ [4, 0, 3, 1, 2, 0] → i < [0, 2, 2, 8, 10].length := by decide
 
